@@ -98,7 +98,7 @@ PROPS = {
              "contexts, exhaustively, judged by the special-value prologues of Arith/Roots/Transc",
     ),
     "C09": dict(
-        mc=[("MC_Round", None)],
+        mc=[("MC_Round", None), ("MC_AlgQuantize", None), ("MC_AlgQuantize", "MC_AlgQuantize_nomode", "expect-violation")],
         drivers=["intS", "intL", "vectors:quantize,tointx,tointv"],
         attr=attr_c09,
         rule="Quantize / RoundToIntegral* / Ceil / Floor events judged by Spec_Quantize, Spec_ToInt, Spec_CeilFloor",
